@@ -28,10 +28,10 @@ CLAIMS = {
 }
 ENGINES = {
  "codec": ("lib/engine_codec.py", "Coq model + theorems; extracted OCaml runner vs Rust harness (public API) on generated cases"),
- "stream": ("lib/engine_stream.py", "Coq stream/server models + theorems; extracted runner vs Rust harness with scripted AsyncRead/AsyncWrite (paused tokio runtime)"),
- "server": ("lib/engine_stream.py", "same engine as stream; hook verif_serve_stream"),
- "client": ("lib/engine_client.py", "Coq client state machine + theorems; Rust harness with scripted duplex (hook verif_attach_stream)"),
- "net": ("lib/engine_net.py", "Coq listener/TLS models + theorems; real sockets, real OpenSSL"),
+ "stream": ("lib/checks_stream.py", "Coq stream/server models + theorems; extracted runner vs Rust harness with scripted AsyncRead/AsyncWrite (paused tokio runtime)"),
+ "server": ("lib/checks_stream.py", "same engine as stream; hook verif_serve_stream"),
+ "client": ("lib/checks_client.py", "Coq client state machine + theorems; Rust harness with scripted duplex (hook verif_attach_stream)"),
+ "net": ("lib/checks_net.py", "Coq listener/TLS models + theorems; real sockets, real OpenSSL"),
 }
 
 
